@@ -31,6 +31,7 @@ FUNCTIONS = [
     "ombott.request_pkg.body_mixin:BodyMixin.POST",
     "ombott.request_pkg.body_mixin:BodyMixin.forms",
     "ombott.request_pkg.body_mixin:BodyMixin._get_body_string",
+    "ombott.request_pkg.body_mixin:BodyMixin.body",
     "ombott.request_pkg.props_mixin:PropsMixin.params",
 ]
 STUBS = [
@@ -137,21 +138,49 @@ def compare(got, pairs, what):
 VIEWS = ("query", "forms", "params-q", "params-b")
 
 
-def observe(cls, view, text, body_text=""):
-    """Send `text` as the query string (views query, params-q, params-qb) or as urlencoded body (forms, params-b;
-    params-qb: `body_text` is the body), return the container the view names.  Any exception propagates:
-    parsing must be total."""
+def request_for(cls, view, text, body_text=""):
+    """Request carrying `text` as the query string (views query, params-q, params-qb) or as urlencoded body
+    (forms, params-b; params-qb: `body_text` is the body)."""
     if view in ("forms", "params-b"):
         text, body_text = "", text
     body = body_text.encode("latin1")
-    rq = cls({"REQUEST_METHOD": "POST", "PATH_INFO": "/", "QUERY_STRING": text,
-              "CONTENT_TYPE": "application/x-www-form-urlencoded", "CONTENT_LENGTH": str(len(body)),
-              "wsgi.input": stubs.SymStream(len(body), [], data=body)})
+    return cls({"REQUEST_METHOD": "POST", "PATH_INFO": "/", "QUERY_STRING": text,
+                "CONTENT_TYPE": "application/x-www-form-urlencoded", "CONTENT_LENGTH": str(len(body)),
+                "wsgi.input": stubs.SymStream(len(body), [], data=body)})
+
+
+def read_view(rq, view):
+    """The container the view names.  Any exception propagates: parsing must be total."""
     if view == "query":
         return rq.query
     if view == "forms":
         return rq.forms
     return rq.params
+
+
+def observe(cls, view, text, body_text=""):
+    return read_view(request_for(cls, view, text, body_text), view)
+
+
+def after_body_access(rq, view, k, pairs, sent):
+    """Order of access: the application (a hook hashing or sniffing the raw body) reads k bytes of Request.body
+    before it looks at the form.  The decoded pairs must not depend on that, a second look must give the same,
+    and the raw body must still be complete afterwards.  `sent`: the body as latin-1 text; pairs None: string
+    outside the round-trip claim."""
+    rq.body.read(k)
+    if 0 < k < len(sent):
+        cover("body-partly-consumed")
+    elif k >= len(sent) > 0:
+        cover("body-fully-consumed")
+    for attempt in ("after Request.body.read(%d)" % k, "read a second time"):
+        got = read_view(rq, view)
+        bad = None if pairs is None else compare(got, pairs, name(view) + " " + attempt)
+        if bad:
+            return bad
+    raw = rq.body.read().decode("latin1")      # compared as text: one solver query instead of one fork per byte
+    if raw != sent:
+        return "Request.body after %s holds %r, %r was sent" % (name(view), raw, sent)
+    return None
 
 
 def name(view):
@@ -189,6 +218,20 @@ def make_scan(view, lo, hi, decoder, prefix="", no_plus=False):
         if want is None:
             return None
         return compare(got, want, name(view))
+    return q
+
+
+def make_scan_access(view, hi):
+    """as make_scan (marker decoder) with the body in the stream, preceded by Request.body.read(k), every k."""
+    dec = stubs_c18.mark_unquote
+
+    def q(qs: str, k: int):
+        assume(1 <= len(qs) <= hi and 0 <= k <= len(qs) + 1)
+        for c in qs:
+            assume(ord(c) < 256)
+        stubs_c18.use_unquote(dec)
+        rq = request_for(SymRequest, view, qs)
+        return after_body_access(rq, view, k, ref_decode(qs, dec), qs)
     return q
 
 
@@ -278,6 +321,25 @@ def make_roundtrip(view, npairs, nkeys, nspecial, vmax):
     return q
 
 
+def make_roundtrip_access(view, nkeys, nspecial):
+    """one encoded pair in the body (key and value from the tables, value optionally one symbolic plain
+    character), preceded by Request.body.read(k), every k up to one more than the body length."""
+    keys, specials = KEYS[:nkeys], SPECIAL_VALUES[:nspecial]
+
+    def q(k1: int, v1: int, s1: str, k: int):
+        assume(0 <= k1 < len(keys) and 0 <= v1 < len(specials))
+        assume(len(s1) <= (1 if v1 == 0 else 0))
+        for c in s1:
+            assume(plain(c))
+        pairs = [(keys[k1], specials[v1] + s1)]
+        enc = quote_plus(pairs[0][0]) + "=" + quote_plus(pairs[0][1])
+        assume(0 <= k <= len(enc) + 1)
+        stubs_c18.use_unquote(unquote)
+        rq = request_for(Request, view, enc)
+        return after_body_access(rq, view, k, pairs, enc)
+    return q
+
+
 def make_roundtrip3(view, nkeys, nspecial):
     """three pairs, keys and values all from the tables (three symbolic texts at once cost > 1 s per path)"""
     keys, specials = KEYS[:nkeys], SPECIAL_VALUES[:nspecial]
@@ -339,6 +401,22 @@ def queries(tier):
     # body pairs is covered by the families below, whose keys are enumerated)
     for view in ("forms", "params-q"):
         scan(view, 0, 4 if not T else 5, "mark", 150 if not T else 500)
+    # order of access: k bytes of Request.body consumed before the form is looked at
+    for view in ("forms",) if not T else ("forms", "params-b"):
+        n = 3 if not T else 4
+        out.append(Q("access-mark/%s/len1-%d" % (view, n), make_scan_access(view, n),
+                     "%s of every body of 1..%d bytes after Request.body.read(k), every k in [0, len+1] (symbolic); the "
+                     "view read twice, then Request.body read again and compared with what was sent; decoder = injective "
+                     "marker" % (name(view), n), timeout=300 if not T else 900, family="access",
+                     expect_cover=["body-partly-consumed", "body-fully-consumed", "several-pairs"]))
+    for view in ("params-b",) if not T else ("forms", "params-b"):
+        nk, nv = (3, 3) if not T else (6, 6)
+        out.append(Q("access-roundtrip/%s/p1-k%d-v%d-s1" % (view, nk, nv), make_roundtrip_access(view, nk, nv),
+                     "one quote_plus-encoded pair (key from %r, value from %r or one symbolic character of a-z 0-9 '-' ' ') "
+                     "read back from %s after Request.body.read(k), every k in [0, len+1] (symbolic); the view read twice, "
+                     "then Request.body read again and compared with what was sent"
+                     % (KEYS[:nk], SPECIAL_VALUES[:nv], name(view)), timeout=200 if not T else 900, family="access",
+                     expect_cover=["body-partly-consumed", "body-fully-consumed"]))
     # real decoder, '%'-free
     scan("query", 0, 4 if not T else 5, "real", 150 if not T else 500)
     scan("forms", 0, 3 if not T else 4, "real", 150, cov=("several-pairs",))
